@@ -73,6 +73,13 @@ template <class V, class RootV> static void read_all_paths(V const& v, Model con
         for (i64 j = 0; j < w * h; ++j) { expect(b[j], j % w, j / w, "begin()[i]"); expect(*v.at(j), j % w, j / w, "at(i)"); }
         i = w * h;
         for (auto it = v.rbegin(); it != v.rend(); ++it) { --i; expect(*it, i % w, i / w, "reverse iterator"); }
+        // backward random-access jumps from the end and from the middle (every target, so also column 0 of earlier rows)
+        for (i64 k = 1; k <= w * h; ++k) { i64 j = w * h - k; expect(e[-k], j % w, j / w, "end()[-k]"); expect(*(e - k), j % w, j / w, "*(end() - k)"); }
+        if (w * h > 2)
+        {
+            auto mid = b + (w * h) / 2;
+            for (i64 j = 0; j < w * h; ++j) expect(mid[j - (w * h) / 2], j % w, j / w, "(begin()+n/2)[j-n/2]");
+        }
     }
     if (w > 0 && h > 0)
     {
